@@ -25,6 +25,7 @@ import (
 	"os"
 	"sort"
 	"strings"
+	"sync"
 	"time"
 
 	"github.com/bronlabs/bron-crypto/pkg/mpc/sharing"
@@ -69,6 +70,41 @@ func (c *checker) run(p protoSpec, seed int64, labels map[sharing.ID]string, chu
 		return nil
 	}
 	o.Chunk = chunk
+	if o.Flipped == nil && chunk == 0 && o.Tr != nil {
+		// re-run with exactly one segment of one party's tape flipped, through the tape hook of package drive;
+		// the party's tape is recognised by its first read (the streams of different parties differ)
+		o.Flipped = func(party sharing.ID, off, n int) *obs {
+			bt := o.Tr.Tapes[party]
+			if bt == nil || len(bt.Reads) == 0 {
+				return nil
+			}
+			first := append([]byte{}, bt.Slice(0)...)
+			var mu sync.Mutex
+			target := map[*drive.Tape]bool{}
+			drive.DefaultTamper = func(t *drive.Tape, toff int, p []byte) {
+				mu.Lock()
+				defer mu.Unlock()
+				if toff == 0 {
+					target[t] = len(p) >= len(first) && bytes.Equal(p[:len(first)], first) || len(p) < len(first) && bytes.Equal(p, first[:len(p)])
+				}
+				if !target[t] {
+					return
+				}
+				for i := range p {
+					if q := toff + i; q >= off && q < off+n {
+						p[i] ^= 0xff
+					}
+				}
+			}
+			var b *obs
+			pn := vh.Safely(func() { b = p.Run(seed, labels) })
+			drive.DefaultTamper = nil
+			if pn != "" {
+				panic(pn)
+			}
+			return b
+		}
+	}
 	return o
 }
 
@@ -459,6 +495,23 @@ func main() {
 					runs = append(runs, S)
 				}
 				c.freshCheck(p, seed, runs)
+			}
+			// the per-read tape-sensitivity family
+			if si == 0 {
+				maxPer := 8
+				var positions []int
+				for pos := range A.IDs {
+					positions = append(positions, pos)
+				}
+				if a.Tier == "thorough" || a.Search {
+					maxPer = 24
+				} else if p.Heavy {
+					maxPer = 5
+					positions = []int{pi % len(A.IDs)}
+				}
+				if !(p.NoQuickStingy && a.Tier != "thorough" && !a.Search) {
+					c.sensitivity(p, seed, A, maxPer, positions)
+				}
 			}
 			// the stingy-source family: tapes that serve at most k bytes per Read call
 			if si == 0 && !(p.NoQuickStingy && a.Tier != "thorough" && !a.Search) {
